@@ -1155,7 +1155,7 @@ def p_qualifier(p):
         else:
             qval = cimvalue(qval, qualdecl.type)
         p[0] = CIMQualifier(qname, qval, type=qualdecl.type, **flavors)
-    except (ValueError, TypeError) as exc:
+    except (ValueError, TypeError, OverflowError) as exc:
         raise _invalid_value(p, exc)
 
     # Note: The propagated flag is not set because this is parsed MOF, which
@@ -1224,7 +1224,7 @@ def p_propertyDeclaration_2(p):
     """propertyDeclaration_2 : dataType propertyName defaultValue ';'"""
     try:
         p[0] = CIMProperty(p[2], p[3], type=p[1])
-    except (ValueError, TypeError) as exc:
+    except (ValueError, TypeError, OverflowError) as exc:
         raise _invalid_value(p, exc)
 
 
@@ -1239,7 +1239,7 @@ def p_propertyDeclaration_4(p):
     try:
         p[0] = CIMProperty(p[2], p[4], type=p[1], is_array=True,
                            array_size=p[3])
-    except (ValueError, TypeError) as exc:
+    except (ValueError, TypeError, OverflowError) as exc:
         raise _invalid_value(p, exc)
 
 
@@ -1256,7 +1256,7 @@ def p_propertyDeclaration_6(p):
     try:
         p[0] = CIMProperty(p[3], cimvalue(p[4], p[2]),
                            type=p[2], qualifiers=quals)
-    except (ValueError, TypeError) as exc:
+    except (ValueError, TypeError, OverflowError) as exc:
         raise _invalid_value(p, exc)
 
 
@@ -1275,7 +1275,7 @@ def p_propertyDeclaration_8(p):
         p[0] = CIMProperty(p[3], cimvalue(p[5], p[2]),
                            type=p[2], qualifiers=quals, is_array=True,
                            array_size=p[4])
-    except (ValueError, TypeError) as exc:
+    except (ValueError, TypeError, OverflowError) as exc:
         raise _invalid_value(p, exc)
 
 
@@ -1303,7 +1303,7 @@ def p_referenceDeclaration(p):
     try:
         p[0] = CIMProperty(pname, dv, type='reference',
                            reference_class=cname, qualifiers=quals)
-    except (ValueError, TypeError) as exc:
+    except (ValueError, TypeError, OverflowError) as exc:
         raise _invalid_value(p, exc)
 
 
@@ -1629,7 +1629,7 @@ def p_qualifierDeclaration(p):
         p[0] = CIMQualifierDeclaration(
             qualname, dt, value=value, is_array=is_array,
             array_size=array_size, scopes=scopes, **flavors)
-    except (ValueError, TypeError) as exc:
+    except (ValueError, TypeError, OverflowError) as exc:
         raise _invalid_value(p, exc)
 
 
@@ -1942,7 +1942,7 @@ def p_instanceDeclaration(p):
                             parser_token=p)
                 pprop.value = cimvalue(pval, cprop.type)
             inst.properties[pname] = pprop
-        except (ValueError, TypeError) as ve:
+        except (ValueError, TypeError, OverflowError) as ve:
             raise MOFParseError(
                 msg=_format(
                     "Cannot compile instance of {0!A} because it specifies "
